@@ -203,7 +203,12 @@ def run(ck):
         if not b.is_cleanup(c.bb) and c.dest["l"] == 2 and not c.dest["p"]:
             nfin += 1
             ck.verdict(False, "2", "T6-provenance", b, "finite-timeout-stays-finite", "", "the timeout is overwritten with the result of %s, which can be None although the caller gave a finite timeout: the poller then waits for ever and dispatch(Some(d)) never returns" % ((c.f or {}).get("path") or c.name), site=b.where(c.bb))
-    ck.floor("2", "rewrites of the timeout checked for finiteness", nfin, 2)
+    # .. the same for a timeout carried in fresh bindings (`let timeout = ..`): whatever reaches the wait
+    for p0 in polls:
+        nfin += 1
+        d = _finite(p0.bb, {"r": "use", "o": p0.args[1]})
+        ck.verdict(d is None, "2", "T6-provenance", b, "finite-timeout-stays-finite:at-the-wait", "the value handed to Poll::poll is Some(..), the timeout parameter itself, or None on the None arm of a test of the timeout", "Poll::poll is handed %s, which can be None although the caller gave a finite timeout: the poller then waits for ever" % d, site=b.where(p0.bb))
+    ck.floor("2", "values reaching the timeout checked for finiteness", nfin, 1)
 
     # ---- clause 1b: the clamping deadline belongs to an armed timer ---------------------------------------------------
     C05.cancel_rules(ck, "1b")
